@@ -1263,7 +1263,14 @@ pub fn child(args: &Args) -> ! {
             let _ = store.flush();
             let from = mon.calls() + rng.below(12) as u32;
             let mode = if rng.chance(1, 2) { Fault::Before } else { Fault::After };
-            mon.set_plan(FaultPlan { from: Some((from, mode)), uring, ..Default::default() });
+            // io_uring runs: in half of them it is io_uring_enter itself that keeps failing from some call on - with a
+            // "try again" errno (EAGAIN / EBUSY) or with EIO - while the writes themselves would work
+            let enter_from = (uring && rng.chance(1, 2)).then(|| (mon.enter_stats().0 + rng.below(4) as u32, *rng.pick(&[11i32, 16, 5])));
+            if let Some(ef) = enter_from {
+                mon.set_plan(FaultPlan { enter_from: Some(ef), uring, ..Default::default() });
+            } else {
+                mon.set_plan(FaultPlan { from: Some((from, mode)), uring, ..Default::default() });
+            }
             let mut hs = Vec::new();
             for w in 0..3 {
                 let s = store.clone();
@@ -1288,7 +1295,7 @@ pub fn child(args: &Args) -> ! {
                 max_call_us.set(max_call_us.get().max(h.join().expect("thread")));
                 calls.set(calls.get() + 60);
             }
-            notes.push(format!("persistent {mode:?} failure from I/O call {from} ({}); consumed {}", if uring { "io_uring" } else { "sync I/O" }, mon.consumed().len()));
+            notes.push(format!("persistent {mode:?} failure from I/O call {from} ({}{}); consumed {}", if uring { "io_uring" } else { "sync I/O" }, enter_from.map(|(n, e)| format!(", io_uring_enter failing with errno {e} from its call {n} on")).unwrap_or_default(), mon.consumed().len()));
             // drop with the device still failing
             let mut last = Arc::try_unwrap(store).ok();
             timed(&mut || drop(last.take()));
@@ -1375,10 +1382,28 @@ pub fn run_live(args: &Args, report: &mut Report) {
                                 let b = thread_cpu(child.id());
                                 let progressed = b.iter().filter(|(t, (_, c))| a.get(*t).map(|(_, c0)| c0 != c).unwrap_or(true)).count();
                                 let runnable = b.values().filter(|(s, _)| s == "R").count();
+                                // a background thread that spins: over a further 20 s ONE thread burns at least 17 s of CPU
+                                // time (measured in CPU time, so machine load cannot fake it) while every other thread of
+                                // the child stays idle - the scenario hangs on a loop that makes no progress
+                                let mut spinner: Option<(String, u64)> = None;
+                                if progressed > 0 {
+                                    let c0 = thread_cpu(child.id());
+                                    std::thread::sleep(Duration::from_secs(20));
+                                    let c1 = thread_cpu(child.id());
+                                    let tick = 100u64; // USER_HZ
+                                    let deltas: Vec<(String, u64)> = c1.iter().map(|(t, (_, c))| (t.clone(), c.saturating_sub(c0.get(t).map(|x| x.1).unwrap_or(*c)))).collect();
+                                    let busy: Vec<&(String, u64)> = deltas.iter().filter(|(_, d)| *d >= 17 * tick).collect();
+                                    let others: u64 = deltas.iter().filter(|(_, d)| *d < 17 * tick).map(|(_, d)| *d).sum();
+                                    if busy.len() == 1 && others <= tick && matches!(child.try_wait(), Ok(None)) {
+                                        spinner = Some(busy[0].clone());
+                                    }
+                                }
                                 let bt = std::process::Command::new("gdb").args(["-p", &child.id().to_string(), "-batch", "-ex", "thread apply all bt 10"]).output().map(|o| String::from_utf8_lossy(&o.stdout).chars().rev().take(6000).collect::<String>().chars().rev().collect::<String>()).unwrap_or_default();
                                 let _ = child.kill();
                                 let _ = child.wait();
-                                if progressed == 0 && runnable == 0 {
+                                if let Some((tid, d)) = spinner {
+                                    verdict = Some(("live:spin".into(), format!("scenario {scenario} run {rid}: not finished after 110 s; thread {tid} burnt {:.1} s of CPU time in the last 20 s while all other threads of the process stayed idle - a loop that never makes progress (calls, flush or close cannot return). Backtrace tail:\n{}", d as f64 / 100.0, bt)));
+                                } else if progressed == 0 && runnable == 0 {
                                     verdict = Some(("live:stall".into(), format!("scenario {scenario} run {rid}: not finished after 90 s and no thread consumed CPU for 2 s ({} threads, none runnable) — deadlock / lost wake-up. Backtrace tail:\n{}", b.len(), bt)));
                                 } else {
                                     local.inconclusive.push(format!("scenario {scenario} run {rid}: watchdog expired but {progressed} threads were still consuming CPU (slow, not stalled)"));
